@@ -178,11 +178,12 @@ def check(ctx, files, unsplit, models, tags, k):
             fd = os.path.join(d, fnames[min(i, len(fnames) - 1)] + ("" if i < len(fnames) else str(i)))
             os.makedirs(fd)
             folders.append(fd)
-            with open(os.path.join(fd, "f%d.mo" % i), "w") as f:
+            # (every folder holds its file at the same relative path)
+            with open(os.path.join(fd, "package.mo" if k % 2 else "f%d.mo" % i), "w") as f:
                 f.write(t)
         results.append(walk_outcomes(folders[0], models, folders[1:]))
         ctx.monitor("directory_walk_comparisons")
-        ctx.cover("layout:sibling-library-folders-with-a-common-name-prefix")
+        ctx.cover("layout:sibling-library-folders-with-a-common-name-prefix" + (":same-relative-file-path" if k % 2 else ""))
     shutil.rmtree(d, ignore_errors=True)
     for layout, res in enumerate(results):
         for key, val in res.items():
